@@ -93,6 +93,28 @@ def run(chk):
     small = [c.NcpConfig.GetModuleVersion.Rsp, c.ZDO.DevAnnceInd.Ind, c.NcpConfig.GetZigbeeRole.Rsp]
     classes = big + small
     scen = []
+    # the host's own transmitter at every message length around the multiples of the fragment size (the lengths where
+    # the first fragment is shortest / bumped to hold the 4-byte header): what it emits must be what the receiver accepts
+    targets = [L for k in (1, 2, 3, 4) for L in range(247 * k - 3, 247 * k + 6)] + [4 + 1, 300, 600, 1000]
+    for L in targets:
+        cls = c.APS.DataIndication.Ind
+        kw = W.gen_assignment(rng, cls)
+        kw["Payload"] = type(kw["Payload"])([])
+        base = cls(**kw).to_frame().hl_packet.length - 2     # header + parameters without the body checksum
+        n = L - base
+        if n < 0:
+            continue
+        kw["Payload"] = type(kw["Payload"])([rng.randrange(256) for _ in range(n)])
+        kw["DataLength"] = type(kw["DataLength"])(n % 65536) if "DataLength" in kw else None
+        if kw.get("DataLength") is None:
+            kw.pop("DataLength", None)
+        cmd = cls(**kw)
+        body = bytes(cmd.to_frame().hl_packet.data)
+        frs = split_message(rng, int(cls.header), body, rng.randrange(4), own_tx=True)
+        stream = b"".join(frs)
+        cuts = sorted(set(rng.randrange(1, max(2, len(stream))) for _ in range(rng.randrange(0, 4))))
+        scen.append((stream, cuts, [(cls, kw, cmd)], len(frs)))
+        chk.count("own_tx_boundary_lengths")
     for _ in range(400 if thorough else 80):
         msgs = []
         stream = b""
